@@ -1401,3 +1401,58 @@ func CloseLeavesNoWatcher(res *fw.Result, seed int64) error {
 	res.Eval(true, []interface{}{"close-leaves-no-watcher"})
 	return nil
 }
+
+// ZeroBackoff: WithReconnectBackoff given a zero bound (an application that only wants to set the other one, or reads
+// both from a configuration with missing entries).  Redial attempts must still be spaced: never a busy loop.
+func ZeroBackoff(res *fw.Result, seed int64) error {
+	for i, cfg := range [][2]time.Duration{{0, time.Second}, {100 * time.Millisecond, 0}, {0, 0}} {
+		e, err := scen.NewEnv(seed+801+int64(i), 0)
+		if err != nil {
+			return err
+		}
+		ctx, cancel := context.WithCancel(context.Background())
+		cl, closer, err := e.Client(ctx, jsonrpc.WithReconnectBackoff(cfg[0], cfg[1]))
+		if err != nil {
+			cancel()
+			e.Close()
+			return err
+		}
+		if v, err := cl.Add(1, 2); err != nil || v != 3 {
+			cancel()
+			e.Close()
+			return fmt.Errorf("zero-backoff: warm-up call failed: %v %v", v, err)
+		}
+		n0 := len(e.PX.AcceptTimes())
+		e.PX.SetRefuse(true)
+		e.PX.Cut(0, "rst")
+		time.Sleep(time.Second)
+		dials := len(e.PX.AcceptTimes()) - n0
+		e.PX.SetRefuse(false)
+		healed := false
+		for w := 0; w < 60 && !healed; w++ {
+			done := make(chan bool, 1)
+			go func() { v, err := cl.Add(20, 22); done <- err == nil && v == 42 }()
+			select {
+			case healed = <-done:
+			case <-time.After(time.Second):
+			}
+			if !healed {
+				time.Sleep(100 * time.Millisecond)
+			}
+		}
+		c := map[string]interface{}{"scenario": "zero-backoff", "min": cfg[0].String(), "max": cfg[1].String(), "dials_in_1s": dials}
+		if dials > 100 {
+			res.Add(fw.Finding{Kind: "monitor", Signature: "redial busy loop with a zero backoff bound",
+				Detail: fmt.Sprintf("WithReconnectBackoff(%v, %v): %d redial attempts reached the listener during an outage of one second — the attempts are not spaced at all", cfg[0], cfg[1], dials), Case: c})
+		}
+		if !healed {
+			res.Add(fw.Finding{Kind: "monitor", Signature: "zero backoff bound: never heals", Detail: "no call succeeded within a minute of the server being reachable again", Case: c})
+		}
+		res.Count("zero-backoff")
+		res.Eval(true, []interface{}{"zero-backoff", cfg[0].String(), cfg[1].String()})
+		scen.WithTimeout(3*time.Second, closer)
+		cancel()
+		e.Close()
+	}
+	return nil
+}
